@@ -19,7 +19,7 @@ TRUSTED = ['SQLite (here 3.40): column affinity from the declared type, affinity
 RULE = ('bounded-exhaustive: tables of <= 6 atoms x every subset of size 0-4 of a pool of 8 atomic conditions '
         '(text/int/real/rowID x positive/negated x present/absent x numeric-as-text) x 6 attribute lists (rowID at '
         'every position, *); random: tables <= 60 atoms, 0-4 conditions, attribute lists of length 1-5, malformed '
-        'names. Non-trivial: the query has at least one condition, or a multi-attribute / rowID attribute list.')
+        'names. A third of the sessions carry their rowID / no_rowID values as NumPy integers (int64/int32/intp). Non-trivial: the query has at least one condition, or a multi-attribute / rowID attribute list.')
 
 ATTR_LISTS = ['rowID', 'x,y,z', 'rowID,name', 'name, rowID ,resSeq', 'serial,chainID,rowID', '*']
 
@@ -107,7 +107,9 @@ def feats_of(op, i, case):
         kw = op[3] if op[0] == 'get' else op[2]
         cols = op[1] if op[0] in ('get', 'get_all') else op[0]
         if any(k.startswith('no_') for k, _ in kw): f.append('negated-key')
-        if any(k in ('rowID', 'no_rowID') for k, _ in kw): f.append('rowID-key')
+        if any(k in ('rowID', 'no_rowID') for k, _ in kw):
+            f.append('rowID-key')
+            if case.get('rowid_carrier'): f.append('rowID-key-numpy-integer')
         if any(isinstance(x, str) and x.strip().replace('.', '', 1).lstrip('+-').isdigit()
                for _, v in kw for x in (v if isinstance(v, list) else [v])): f.append('numeric-text-value')
         if any(x is None for _, v in kw for x in (v if isinstance(v, list) else [v])): f.append('none-value')
@@ -160,6 +162,7 @@ def explore(ctx, tier, rng, search=False):
                 kw = [pool[j] for j in sub]
                 ops += [['xyz', tn, kw], ['residues', tn, kw], ['chains', tn, kw]]
         cases.append({'structs': [atoms], 'kind': kind, 'ops': ops, 'part': 'exhaustive'})
+        if t % 3 == 1: cases[-1]['rowid_carrier'] = rng.choice(['i64', 'i32', 'intp'])   # np.where / np.argmax deliver these
     # ---- random part
     nrand_tab = 120 if deep else 30
     per = 160 if deep else 100
@@ -201,6 +204,7 @@ def explore(ctx, tier, rng, search=False):
                 else: tail.append(['colnames'])
             ops[at:at] = [['add_column', cname, ctype, cval, names[0]]] + tail
         cases.append({'structs': structs, 'ops': ops, 'part': 'random'})
+        if rng.random() < 0.3: cases[-1]['rowid_carrier'] = rng.choice(['i64', 'i32', 'intp'])
     # ---- the two recorded finding classes, on purpose (a few)
     for t in range(6 if deep else 3):
         atoms = small_table(rng)
